@@ -4,7 +4,9 @@ import (
 	"context"
 	"crypto/tls"
 	"encoding/json"
+	"errors"
 	"fmt"
+	"github.com/wneessen/go-mail/smtp"
 	"io"
 	"net"
 	"strings"
@@ -40,6 +42,9 @@ type c19Cfg struct {
 	// DLFail > 0: the transport stops supporting deadlines — Set*Deadline fails from its DLFail-th call on (1 = the
 	// very first call, right after the dial)
 	DLFail int `json:"dlfail,omitempty"`
+	// API: 1 = the connection-per-caller variants: DialToSMTPClientWithContext instead of DialWithContext, and
+	// DialToSMTPClientWithContext + SendWithSMTPClient + CloseWithSMTPClient instead of DialAndSend
+	API    int `json:"api,omitempty"`
 	BadMsg int `json:"badmsg,omitempty"` // DialAndSend: 1 = message without recipients, 2 = 8bit message (server has no... it has 8BITMIME) with failing body writer, 3 = nil message only
 }
 
@@ -208,6 +213,7 @@ func c19Exec(r *vf.Run, cfg c19Cfg, c *vf.Chooser) (keys, whats []string) {
 		prevLive = true
 	}
 	var opErr error
+	var ownConn *smtp.Client
 	pan, pw := vf.Guard(func() {
 		if cfg.Send {
 			var ms []*mail.Msg
@@ -227,7 +233,17 @@ func c19Exec(r *vf.Run, cfg c19Cfg, c *vf.Chooser) (keys, whats []string) {
 			case 3:
 				ms = []*mail.Msg{nil}
 			}
-			opErr = cl.DialAndSendWithContext(ctx, ms...)
+			if cfg.API == 1 {
+				var sc *smtp.Client
+				if sc, opErr = cl.DialToSMTPClientWithContext(ctx); opErr == nil {
+					serr := cl.SendWithSMTPClient(sc, ms...)
+					opErr = errors.Join(serr, cl.CloseWithSMTPClient(sc))
+				}
+			} else {
+				opErr = cl.DialAndSendWithContext(ctx, ms...)
+			}
+		} else if cfg.API == 1 {
+			ownConn, opErr = cl.DialToSMTPClientWithContext(ctx)
 		} else {
 			opErr = cl.DialWithContext(ctx)
 		}
@@ -269,6 +285,12 @@ func c19Exec(r *vf.Run, cfg c19Cfg, c *vf.Chooser) (keys, whats []string) {
 	if cfg.Send {
 		op = "DialAndSend"
 	}
+	if cfg.API == 1 {
+		op = map[bool]string{false: "DialToSMTPClientWithContext", true: "DialToSMTPClient+SendWithSMTPClient+CloseWithSMTPClient"}[cfg.Send]
+		if handed {
+			r.Outcome("reached/connection-per-caller-api")
+		}
+	}
 	if opErr != nil && opened && !closed {
 		add(fmt.Sprintf("connection-left-open/op=%s/failed-at=%s", op, failAt),
 			fmt.Sprintf("%s returned %q but the connection it opened was not closed (tls=%s auth=%s); replies: %s", op, opErr, c19TLSNames[cfg.TLS], auth, c.Describe(describeReplyChoice)))
@@ -298,6 +320,9 @@ func c19Exec(r *vf.Run, cfg c19Cfg, c *vf.Chooser) (keys, whats []string) {
 	}
 	if opErr == nil && !cfg.Send {
 		r.Outcome("dial-ok")
+		if ownConn != nil {
+			_ = cl.CloseWithSMTPClient(ownConn)
+		}
 		_ = cl.Close()
 	} else if opErr == nil {
 		r.Outcome("dialandsend-ok")
@@ -311,7 +336,7 @@ func init() {
 	vf.Register(&vf.Check{
 		ID: "C19", Title: "no connection outlives a failed operation",
 		Run: func(r *vf.Run) {
-			r.SetRule("reply ∈ {ok, 4yz, 5yz, drop, garbage, ok-but-the-next-client-write-fails, 421 followed by a disconnect} at every step of dial and dial-and-send (greeting, EHLO, HELO fallback, STARTTLS, each AUTH step, NOOP, MAIL, RCPT, DATA, end-of-data, RSET, QUIT) up to the deviation bound × TLS policy {mandatory, opportunistic, none, implicit} × handshake {ok, wrong-name certificate, garbage, drop} × STARTTLS advertised or not × auth {none, PLAIN, LOGIN, CRAM-MD5, SCRAM-SHA-256, XOAUTH2, auto-discover, mechanism not offered, HELO name containing CR, SCRAM-SHA-256-PLUS}; plus a transport on which Set*Deadline fails from the 1st / 2nd / 3rd call on; plus the same calls with a caller context that is cancelled while the dial is in flight (the dialer still hands out a live connection), and on a Client that is already connected (whatever it then does with the earlier connection is answered {ok, 5yz, drop}); oracle: Close() was called on the fake connection by the time the failing call returns; distinct by (configuration, script)")
+			r.SetRule("reply ∈ {ok, 4yz, 5yz, drop, garbage, ok-but-the-next-client-write-fails, 421 followed by a disconnect} at every step of dial and dial-and-send (greeting, EHLO, HELO fallback, STARTTLS, each AUTH step, NOOP, MAIL, RCPT, DATA, end-of-data, RSET, QUIT) up to the deviation bound × TLS policy {mandatory, opportunistic, none, implicit} × handshake {ok, wrong-name certificate, garbage, drop} × STARTTLS advertised or not × auth {none, PLAIN, LOGIN, CRAM-MD5, SCRAM-SHA-256, XOAUTH2, auto-discover, mechanism not offered, HELO name containing CR, SCRAM-SHA-256-PLUS}; plus a transport on which Set*Deadline fails from the 1st / 2nd / 3rd call on; plus the same calls with a caller context that is cancelled while the dial is in flight (the dialer still hands out a live connection), and through the connection-per-caller variants (DialToSMTPClientWithContext alone, and followed by SendWithSMTPClient + CloseWithSMTPClient), and on a Client that is already connected (whatever it then does with the earlier connection is answered {ok, 5yz, drop}); oracle: Close() was called on the fake connection by the time the failing call returns; distinct by (configuration, script)")
 			r.Assume("'closed' means net.Conn.Close was called on the connection the dial function handed out (or on a TLS wrapper around it)")
 			bound := 2
 			if r.Thorough {
@@ -355,6 +380,12 @@ func init() {
 									// history: the Client is already connected when the judged call starts
 									cfgs = append(cfgs, c19Cfg{TLS: tlsm, Auth: a, Send: send, Redial: true})
 								}
+								if hs == 0 || !send {
+									cfgs = append(cfgs, c19Cfg{TLS: tlsm, Auth: a, Send: send, HSBad: hs, NoSTL: nostl, API: 1})
+								}
+								if send && tlsm == 2 && a == 0 {
+									cfgs = append(cfgs, c19Cfg{TLS: tlsm, Auth: a, Send: send, Msgs: 2, API: 1}, c19Cfg{TLS: tlsm, Auth: a, Send: send, BadMsg: 2, API: 1})
+								}
 								if send && tlsm == 2 && a == 0 {
 									for bm := 1; bm <= 3; bm++ {
 										cfgs = append(cfgs, c19Cfg{TLS: tlsm, Auth: a, Send: send, BadMsg: bm})
@@ -397,7 +428,7 @@ func init() {
 					}
 				})
 			})
-			r.Reached("reached/deadline-call-1-failed", "reached/redial-judged", "reached/context-cancelled-during-dial", "reached/fallback-connection", "reached/closed-after-failure/tls=mandatory", "reached/closed-after-failure/tls=opportunistic",
+			r.Reached("reached/connection-per-caller-api", "reached/deadline-call-1-failed", "reached/redial-judged", "reached/context-cancelled-during-dial", "reached/fallback-connection", "reached/closed-after-failure/tls=mandatory", "reached/closed-after-failure/tls=opportunistic",
 				"reached/closed-after-failure/tls=none", "reached/closed-after-failure/tls=implicit", "dial-ok", "dialandsend-ok")
 		},
 		Replay: func(r *vf.Run, kase json.RawMessage) {
